@@ -5,6 +5,9 @@ cAppOrder2 == <<"a1", "a2">>
 cGen1 == <<"g1">>
 cGen2 == <<"g1", "g2">>
 cGen3 == <<"g1", "g2", "g3">>
+cClass1 == {ToString(i) : i \in 1..9}
+cClass2 == {ToString(i) : i \in 10..99}
+cClass3 == {ToString(i) : i \in 100..999}
 cAdd1 == {[phase |-> "p1", body |-> "b1"]}
 cAdd2 == {[phase |-> "p1", body |-> "b1"], [phase |-> "p2", body |-> "b2"]}
 =============================================================================
